@@ -161,3 +161,17 @@ Example C33_ex_listener :
   | Some s => lhist s = [EvDial 1 true false; EvClose 0 true; EvDial 0 false true; EvAccept 0 false (Some 0)]
   | None => False end.
 Proof. vm_compute. reflexivity. Qed.
+
+(* the interleaving "poll finds rCh empty -> the peer completes Write and Close -> blocking select": the reader's two selects
+   are separate steps of the transition system (LRTakeDefault, then LRTakeSlow | LRStopWake with BOTH enabled), and on the
+   stopCh pick the re-poll (LRStopTake) delivers the byte; LRStopEof is not enabled while the channel holds something.
+   C33_close_drains_then_eof (1) quantifies over all these traces: without the re-poll its invariant would fail here. *)
+Example C33_ex_close_between_the_two_selects :
+  (match run dinit [LRStart 8; LRTakeDefault; LWStart [120]; LWChkOpen; LWSendFast; LClose; LRStopWake; LRStopTake; LRTakeDefault] with
+   | Some s => hist s = [EvR 8 [120] ROk; EvW [120] false WOk]
+   | None => False end) /\
+  (match run dinit [LRStart 8; LRTakeDefault; LWStart [120]; LWChkOpen; LWSendFast; LClose; LRTakeSlow; LRTakeDefault] with
+   | Some s => hist s = [EvR 8 [120] ROk; EvW [120] false WOk]
+   | None => False end) /\
+  run dinit [LRStart 8; LRTakeDefault; LWStart [120]; LWChkOpen; LWSendFast; LClose; LRStopWake; LRStopEof] = None.
+Proof. vm_compute. repeat split; reflexivity. Qed.
